@@ -332,6 +332,34 @@ def case_iov(m, spec, eq, rec):
     rec('iov.remove_restores', 'violated' if bad else 'discharged', **(dict(first=bad[0][0], detail=bad[0][1]) if bad else {}))
 
 
+def case_iov_partial(m, spec, eq, rec):
+    """IOV added to two parameters (disjoint or joint occasion blocks); removing the IOV of ONE of them (named by one
+    of its occasion etas) restores that parameter and leaves the other parameter's IOV as it was."""
+    sympy, pm, semeq = _W['sympy'], _W['pm'], _W['semeq']
+    occ, p1, p2, dist = spec
+    m2 = pm.add_iov(m, occ, list_of_parameters=[p1, p2], distribution=dist)
+    new = [n for n in m2.random_variables.etas.names if n not in m.random_variables.etas.names]
+    d1, d2 = semeq.denote(m.statements), semeq.denote(m2.statements)
+    P1, P2 = sympy.Symbol(p1), sympy.Symbol(p2)
+    mine = sorted(str(x) for x in d2.env[P1].free_symbols if str(x) in new)
+    other = sorted(str(x) for x in d2.env[P2].free_symbols if str(x) in new)
+    if not mine or not other or set(mine) & set(other):
+        rec('iov_partial.setup', 'inconclusive', what=f'iov etas of {p1}: {mine}, of {p2}: {other}')
+        return
+    m3 = pm.remove_iov(m2, to_remove=[mine[0]])
+    d3 = semeq.denote(m3.statements)
+    left = [n for n in m3.random_variables.etas.names if n in new]
+    if sorted(left) != other:
+        rec('iov_partial.etas_left', 'violated', left=left, expected=other)
+        return
+    levels = sorted(set(m.dataset[occ].tolist()))
+    dom = [sympy.Or(*[sympy.Eq(sympy.Symbol(occ), sympy.nsimplify(v)) for v in levels])]
+    v, info = eq.check(d3.env[P1], d1.env[P1], extra=dom)
+    rec('iov_partial.removed_parameter_restored', V(v), **(dict(info, got=str(d3.env[P1])[:200]) if v != 'equal' else {}))
+    v, info = eq.check(d3.env[P2], d2.env[P2], extra=dom)
+    rec('iov_partial.other_parameter_unchanged', V(v), **(dict(info, got=str(d3.env[P2])[:200], before=str(d2.env[P2])[:200]) if v != 'equal' else {}))
+
+
 def case_ruv_iiv(m, spec, eq, rec):
     """set_iiv_on_ruv: Y = F + EPS*W*exp(ETA_RV): the old observation with every epsilon scaled by exp(eta)."""
     sympy, pm, semeq = _W['sympy'], _W['pm'], _W['semeq']
@@ -489,7 +517,7 @@ def case_rates(m, spec, eq, rec):
 
 KINDS = dict(covariate=case_covariate, iiv=case_iiv, eta_transform=case_eta_transform, allometry=case_allometry,
              error=case_error, rates=case_rates, iiv_existing=case_iiv_existing,
-             iov=case_iov, ruv_iiv=case_ruv_iiv, time_varying=case_time_varying, blq=case_blq)
+             iov=case_iov, iov_partial=case_iov_partial, ruv_iiv=case_ruv_iiv, time_varying=case_time_varying, blq=case_blq)
 
 
 def run_case(case):
@@ -559,6 +587,9 @@ def all_cases(thorough):
             for p in with_eta[: (2 if thorough else 1)]:
                 for dist in (('disjoint', 'joint') if thorough else ('disjoint',)):
                     cases.append((start, 'iov', (o, p, dist)))
+            if len(with_eta) >= 2:
+                for dist in ('disjoint', 'joint'):
+                    cases.append((start, 'iov_partial', (o, with_eta[0], with_eta[1], dist)))
         cases.append((start, 'ruv_iiv', None))
         cases.append((start, 'time_varying', 1.5))
         for meth in ('m3', 'm4'):
